@@ -7,7 +7,7 @@
 (* Events (seconds relative to the start of the run, as the HOST's clock   *)
 (* -- the same machine's wall clock -- shows them):                        *)
 (*  {"e":"step","secs":k}            the wall clock now runs k s off true  *)
-(*  {"e":"recv","id":r,"wall":w,"dates":n,"stamp":s,"parsed":b,"claims":n, *)
+(*  {"e":"recv","id":r,"wall":w,"sent":t|-1,"dates":n,"stamp":s,"parsed":b,"claims":n, *)
 (*   "clientCopy":b,"own":b}         the host received a request at wall   *)
 (*                                   time w carrying n date headers, the   *)
 (*                                   first one reading s                   *)
@@ -33,7 +33,11 @@ IsRecv == last.e = "recv"
 P_C05_OneProxyDate == IsRecv => (last.dates = 1 /\ ~last.clientCopy /\ last.parsed)
 \* whatever the request method, and whatever the host said about ITS clock in earlier responses
 P_C05_OneProxyClaims == (IsRecv /\ ~last.own) => last.claims = 1
-P_C05_DateIsCurrent == (IsRecv /\ last.parsed) => (last.stamp >= last.wall - 20 /\ last.stamp <= last.wall + 1)
+\* a relayed request is stamped between the moment its client began to send it ("sent", read from the same clock) and the
+\* host's receipt -- whatever the machine's load; the agent's own calls have no client: 20 s before receipt at most
+P_C05_DateIsCurrent == (IsRecv /\ last.parsed) =>
+                          /\ last.stamp <= last.wall + 1
+                          /\ IF last.sent >= 0 THEN last.stamp >= last.sent - 1 ELSE last.stamp >= last.wall - 20
 Accepted == IF TLCGet("stats").diameter - 1 = Len(Rec) THEN TRUE
             ELSE PrintT(<<"UNMATCHED", TLCGet("stats").diameter, Len(Rec)>>) /\ FALSE
 =============================================================================
